@@ -247,8 +247,13 @@ def _resolver_replies_to_all(s, rng):
     for (fsrc, fd) in got:
         try:
             m = proto.parse_msg(fd)
-            body = proto.build_answer_raw(m.id, m.qd[0][0], m.qd[0][1], [] if rng.random() < 0.3 else [(m.qd[0][1], bytes(rng.getrandbits(8) for _ in range(4)))],
-                                          rcode=rng.choice([0, 0, 3]))
+            if rng.random() < 0.3:
+                # a large reply (forwarded queries advertise 4096 bytes by EDNS0): several TXT records, 600 .. 3000 bytes in all
+                rrs = [(16, bytes([200]) + bytes(rng.getrandbits(8) for _ in range(200))) for _ in range(rng.choice([3, 5, 9, 14]))]
+                body = proto.build_answer_raw(m.id, m.qd[0][0], m.qd[0][1], rrs)
+            else:
+                body = proto.build_answer_raw(m.id, m.qd[0][0], m.qd[0][1], [] if rng.random() < 0.3 else [(m.qd[0][1], bytes(rng.getrandbits(8) for _ in range(4)))],
+                                              rcode=rng.choice([0, 0, 3]))
         except (proto.ParseError, IndexError, ValueError):
             continue
         k.transmit(("127.0.0.1", BIND_PORT), fsrc, body)
@@ -360,6 +365,10 @@ def do_op(s, mc, op, rng):
             try:
                 m = proto.parse_msg(fd)
                 body = proto.build_answer_raw(m.id, m.qd[0][0], m.qd[0][1], [(1, bytes(rng.getrandbits(8) for _ in range(4)))])
+                if rng.random() < 0.3:
+                    # a large reply: several TXT records, 600 .. 3000 bytes in all
+                    body = proto.build_answer_raw(m.id, m.qd[0][0], m.qd[0][1],
+                                                  [(16, bytes([200]) + bytes(rng.getrandbits(8) for _ in range(200))) for _ in range(rng.choice([3, 5, 9, 14]))])
             except (proto.ParseError, IndexError, ValueError):
                 continue
             r = rng.random()
